@@ -211,3 +211,13 @@ Theorem C08_kernel_x86Convert :
 Proof. exact go_x86Convert_tie. Qed.
 Print Assumptions C08_kernel_x86Convert.
 
+
+(* ---- format constants ----
+   The models take their format constants from Gen/Consts.v, which is regenerated from /repo's
+   source on every run; Spec/ConstPins.v (committed, written by bin/mkpins) pins every one of them
+   to the value the specifications give it.  A constant that drifts in the Go source breaks this
+   theorem instead of being silently followed by model and generator. *)
+From Fiano Require Spec.ConstPins.
+Theorem C08_format_constants_pinned : Spec.ConstPins.pinned_c08.
+Proof. exact Spec.ConstPins.pins_c08. Qed.
+Print Assumptions C08_format_constants_pinned.
